@@ -347,9 +347,9 @@ def evalUnop (cfg : Config) (ty : Ty) (op : UnOp) (a : Val) : Except Err Val :=
     | .not => .error (.unsupported "float ~")
   | _, _ => .error (.ub "unop: operand kind does not match type")
 
-/-- exact truncation toward zero of a finite double; `none` for NaN / ±inf -/
-def truncFloat (f : Float) : Option Int :=
-  let bits := f.toBits.toNat
+/-- exact truncation toward zero of the finite double with IEEE-754 binary64 pattern `bits`;
+    `none` for NaN / ±inf -/
+def truncBits (bits : Nat) : Option Int :=
   let neg := bits / 2 ^ 63 = 1
   let e := bits / 2 ^ 52 % 2048
   let m := bits % 2 ^ 52
@@ -360,6 +360,9 @@ def truncFloat (f : Float) : Option Int :=
       else if e ≥ 1075 then (m + 2 ^ 52) * 2 ^ (e - 1075)
       else (m + 2 ^ 52) / 2 ^ (1075 - e)
     some (if neg then -(mag : Int) else (mag : Int))
+
+/-- exact truncation toward zero of a finite double; `none` for NaN / ±inf -/
+def truncFloat (f : Float) : Option Int := truncBits f.toBits.toNat
 
 def intInRange (t : ITy) (v : Int) : Bool := decide (Spec.IRArith.InRange t v)
 
